@@ -166,6 +166,84 @@ func (s *seqRT) ruleStack() {
 	}
 }
 
+// ruleStackNested: the same height analysis for a loop whose body is another
+// loop of the same runtime (flatten/filter shapes): the inner loop runs one
+// non-yielding iteration and ends, the outer loop goes round several times.
+func (s *seqRT) ruleStackNested() {
+	c := s.c
+	roles := s.ruleRole()
+	fn := s.w.Func(pathSeq, "For")
+	pos := s.w.FnPos(fn)
+	const outerIters = 4
+	in := s.interp()
+	in.MaxRecur = 3*outerIters + 4
+	in.MaxVisits = 3*outerIters + 4
+	in.MaxDepth = 120
+	count := func(st *State, name string) int {
+		n := 0
+		for _, e := range st.Events {
+			if e.Kind == "call" && isSymNamed(e.Callee, name) {
+				n++
+			}
+		}
+		return n
+	}
+	in.OnCall = func(cc *CallCtx) []Answer {
+		sym, ok := cc.Callee.(Sym)
+		if !ok {
+			return nil
+		}
+		switch sym.Name {
+		case "cond1":
+			return []Answer{{Ret: []AV{mkBool(count(cc.St, "cond1") < outerIters)}, Label: "outer"}}
+		case "cond2":
+			// each run of the inner loop: one iteration, then done
+			return []Answer{{Ret: []AV{mkBool(count(cc.St, "cond2")%2 == 0)}, Label: "inner"}}
+		case "body2":
+			if len(cc.Args) != 2 {
+				return nil
+			}
+			return []Answer{{Label: "sync:Normal", Invoke: []Invocation{{Fn: cc.Args[1], Args: []AV{roles.Normal, Sym{Name: "v"}}}}}}
+		}
+		return nil
+	}
+	inner, st1, ok := s.construct(in, "SEQ.STACK.HEIGHT", "For", []AV{Sym{Name: "cond2", NN: true}, Nil{}, Sym{Name: "body2", NN: true}})
+	if !ok {
+		return
+	}
+	// build the outer loop in the same abstract heap
+	outs := in.Run(st1, fn, []AV{Sym{Name: "cond1", NN: true}, Nil{}, inner}, nil)
+	if len(outs) != 1 || outs[0].Panicked || len(outs[0].Ret) != 1 {
+		c.und("SEQ.STACK.HEIGHT", "nested loops", pos, "cannot construct nested For")
+		return
+	}
+	res := in.Apply(outs[0].St, outs[0].Ret[0], []AV{symC(), symK()})
+	s.account(in)
+	checked := 0
+	growth := ""
+	for _, o := range res {
+		var hs []int
+		for _, e := range o.St.Events {
+			if e.Kind == "call" && isSymNamed(e.Callee, "body2") {
+				hs = append(hs, strings.Count(e.Stack, " > ")+1)
+			}
+		}
+		for i := 1; i < len(hs); i++ {
+			checked++
+			if hs[i] > hs[i-1] {
+				growth = fmt.Sprintf("abstract stack heights at the inner body over successive outer iterations: %v", hs)
+			}
+		}
+	}
+	if checked < 2 {
+		c.und("SEQ.STACK.HEIGHT", "nested loops (inner loop ends, outer loop continues)", pos, fmt.Sprintf("only %d outer iterations explored", checked))
+		return
+	}
+	c.check(growth == "", "SEQ.STACK.HEIGHT", "nested loops (inner loop ends, outer loop continues)", pos,
+		fmt.Sprintf("%d successive outer iterations each running a complete non-yielding inner loop: the abstract stack never gets deeper", checked),
+		"with a loop nested in a loop the outer driver re-enters itself on top of the inner loop's frames: stack depth grows with every non-yielding outer iteration; "+growth)
+}
+
 // ruleNoStaticRecursion: no cycle among static calls in seq.
 func (s *seqRT) ruleNoStaticRecursion() {
 	c := s.c
